@@ -5661,6 +5661,28 @@ impl PeerConnectionInner {
             sctp.close();
         }
 
+        // Data channels created before an SCTP association existed (close while
+        // connecting, or a connection that never carried SCTP) have no
+        // association cleanup to announce Close for them, so `recv()` on them
+        // would wait forever. Close them here. The swap is the same test the
+        // SCTP cleanup guard uses, which makes the two mutually exclusive: a
+        // channel still observes Close exactly once.
+        {
+            use crate::transports::sctp::{DataChannelEvent, DataChannelState};
+            let channels = self.data_channels.lock();
+            for weak_dc in channels.iter() {
+                if let Some(dc) = weak_dc.upgrade() {
+                    let old_state = dc
+                        .state
+                        .swap(DataChannelState::Closed as usize, Ordering::SeqCst);
+                    if old_state != DataChannelState::Closed as usize {
+                        dc.send_event(DataChannelEvent::Close);
+                    }
+                    dc.close_channel();
+                }
+            }
+        }
+
         if let Some(dtls) = self.dtls_transport.lock().as_ref() {
             dtls.close();
         }
